@@ -232,7 +232,7 @@ class JSONSerializer(AbstractIncrementalPacketSerializer[Any, Any]):
                     },
                 ) from exc
             raise DeserializeError(msg) from exc
-        except RecursionError as exc:
+        except (RecursionError, ValueError) as exc:
             raise DeserializeError(f"JSON decode error: {exc}") from exc
         return packet
 
@@ -301,7 +301,7 @@ class JSONSerializer(AbstractIncrementalPacketSerializer[Any, Any]):
                     },
                 ) from exc
             raise IncrementalDeserializeError(msg, remaining_data) from exc
-        except RecursionError as exc:
+        except (RecursionError, ValueError) as exc:
             raise IncrementalDeserializeError(f"JSON decode error: {exc}", remaining_data) from exc
         return packet, remaining_data
 
